@@ -116,3 +116,24 @@ package req
 //@   assert before ReadBodyWithStreaming: contentLength != -2 && arg0 == zr && arg1 == contentLength && arg2 == maxBodySize && !csPrefetched
 //@   ghostset after ReadBodyWithStreaming: csPrefetched = true
 //@   assert before AcquireBodyStream: csPrefetched && arg1 == zr && arg3 == contentLength
+
+// ReadLimitBody / ReadBodyStream: nothing is read for a non-GET request in GET-only mode or for a request that
+// expects 100-continue (the caller decides); otherwise the body reader gets the caller's limit.
+//@ ghost var rlMayCont bool
+//@ func ReadLimitBody(req, r, maxBodySize, getOnly, preParseMultipartForm) err
+//@   props C01, C03
+//@   abstract
+//@   noinline
+//@   modifies rlMayCont
+//@   ghostset-at-entry rlMayCont = true
+//@   ghostset after MayContinue: rlMayCont = result
+//@   assert before ContinueReadBody: !rlMayCont && arg1 == r && arg2 == maxBodySize
+//@ func ReadBodyStream(req, zr, maxBodySize, getOnly, preParseMultipartForm) err
+//@   props C14
+//@   abstract
+//@   noinline
+//@   modifies rlMayCont
+//@   ghostset-at-entry rlMayCont = true
+//@   ghostset after MayContinue: rlMayCont = result
+//@   assert before ContinueReadBodyStream: !rlMayCont && arg1 == zr && arg2 == maxBodySize
+
